@@ -61,7 +61,7 @@ pub fn check_protocol(p: &str, sc: &Scenario, o: &LowOut, opts: &ProtoOpts) -> V
                 v.push(viol(p, "direction", format!("callback {k}: x={:e} is not ahead of xold={:e} in the direction of integration", c.x, c.xold)));
                 break;
             }
-            if !c.has_interp {
+            if !c.has_interp && sc.low_dense {
                 v.push(viol(p, "no_interpolant", format!("callback {k}: no interpolant was passed although dense output is on")));
                 break;
             }
